@@ -91,6 +91,7 @@ func (b *Batcher[K, T]) subscribe(ctx context.Context, ch chan<- T) {
 	b.wg.Add(1)
 	go func() {
 		defer func() {
+			verifPoint("batcher.fwd.exit", "id", id)
 			b.lock.Lock()
 			close(ch)
 			for i, eventCh := range b.eventChs {
@@ -100,6 +101,7 @@ func (b *Batcher[K, T]) subscribe(ctx context.Context, ch chan<- T) {
 				}
 			}
 			b.lock.Unlock()
+			verifPoint("batcher.fwd.exit.unregistered", "id", id)
 			b.wg.Done()
 		}()
 
@@ -110,6 +112,7 @@ func (b *Batcher[K, T]) subscribe(ctx context.Context, ch chan<- T) {
 			case <-b.closeCh:
 				return
 			case env := <-bufferedCh:
+				verifPoint("batcher.fwd.got", "id", id)
 				select {
 				case ch <- env:
 				case <-ctx.Done():
@@ -127,6 +130,7 @@ func (b *Batcher[K, T]) execute(i *item[K, T]) {
 		return
 	}
 	for _, ev := range b.eventChs {
+		verifPoint("batcher.exec.next", "id", ev.id)
 		select {
 		case ev.ch <- i.value:
 		case <-b.closeCh:
@@ -150,6 +154,7 @@ func (b *Batcher[K, T]) Batch(key K, value T) {
 func (b *Batcher[K, T]) Close() {
 	defer b.wg.Wait()
 	b.queue.Close()
+	verifPoint("batcher.close.afterQueue")
 	b.lock.Lock()
 	if b.closed.CompareAndSwap(false, true) {
 		close(b.closeCh)
